@@ -1732,5 +1732,8 @@ func (c *VC) siteAsserts(st *State, s ast.Stmt) {
 			nm = fmt.Sprintf("#%d %s", cs.Ord, nm)
 		}
 		c.addObl("site", nm, s.Pos(), st.pc, t)
+		// assert-then-assume: the statement is proved (or reported) on its own, later obligations
+		// may rely on it
+		c.addFact(st.pc, t)
 	}
 }
